@@ -1251,7 +1251,7 @@ def holstein_rule(chk, src):
 META = {
     "category": "other",
     "engine": "ALG",
-    "technique": "translation of op_mat branches to non-commutative polynomials (Weyl algebra normal ordering, sympy coefficients), exact folding of 2x2 literals, constructor-slot dataflow for copy()",
+    "technique": "abstract interpretation of the op_mat dispatchers in an operator-polynomial domain (non-commutative generators, Weyl normal ordering, sympy coefficients, DVR rotation tokens), of the model builders on symbolic terms, exact 2x2 algebra for spin / fermion matrices, constructor-slot dataflow for copy()",
     "text": "Decides on the source, for all omega/x0/xi symbolically: product and power branches of BasisSHO and BasisSineDVR equal the ordered "
             "product of their factors, [x,p]=i, DVR variants stay in one basis, Pauli/fermion relations of the literal 2x2 matrices hold "
             "exactly, multi-electron element placement, and copy() forwards every stored constructor parameter. Leaf matrices, power "
@@ -1259,5 +1259,5 @@ META = {
             ' The unit conversion table (entries = units per atomic unit, reciprocal constants) and the term lists of TI1DModel / construct_j_matrix (periodic wrap) are decided by folding and abstract runs.',
     "note": "Axioms: ladder leaves and sine-DVR helper integrals denote what they are named after; truncation at the top level ignored "
             "(documented by the property). Branches outside the interpreted fragment are reported as not decided (notes), never guessed.",
-    "design_ref": "DESIGN.md 3.10, 4 (C16)",
+    "design_ref": "DESIGN.md 3.10, 4 (C16); as built: 9.1, 9.3, 9.8",
 }
